@@ -767,7 +767,7 @@ func HugeArrayValue(r *schema.Record, field string, n int) *RecValue {
 	rv := &RecValue{R: r, Fields: make([]*Value, len(r.Fields))}
 	found := false
 	for j, g := range r.Fields {
-		if g.Name == field && g.Type.Kind == schema.ArrayT {
+		if g.Name == field && (g.Type.Kind == schema.ArrayT || (g.Type.Kind == schema.MapT && g.Type.Key == "uint32")) {
 			rv.Fields[j] = bigValue(g.Type, n)
 			found = true
 		} else if r.Kind == schema.Struct {
